@@ -60,7 +60,7 @@ def workload(ctx, lentil):
         ctx.close('wave=si', np.array([ab]), np.array([sm.wave_factor(a, b)]), 1e-12, f'wave|si|{R.Unit(a).name}->{R.Unit(b).name}',
                   'wavelength conversion factor is wrong', w, scale=sm.wave_factor(a, b))
     # ---- flux unit triples --------------------------------------------------------------------------
-    for rep in range(4 if ctx.tier == 'quick' else 20):
+    for rep in range(ctx.count(4, 20)):
         for a, b, c in itertools.product(sm.FLUX, repeat=3):
             k += 1
             if k % ctx.nshards != ctx.shard:
@@ -84,7 +84,7 @@ def workload(ctx, lentil):
             ctx.close('flux=si', sm.flux_to_wlam_si(fab, b, wave) / sm.flux_to_wlam_si(flux, a, wave), np.ones(5), 1e-6,
                       f'flux|si|{a}->{b}', 'flux conversion does not describe the same physical flux', w, scale=1.0)
     # ---- Spectrum.to ----------------------------------------------------------------------------------
-    n = 60 if ctx.tier == 'quick' else 500
+    n = ctx.count(60, 500)
     for i in range(n):
         npts = int(rng.integers(2, 30))
         u0 = sm.WAVE_CANON[int(rng.integers(0, 4))]
@@ -173,7 +173,7 @@ def workload(ctx, lentil):
         ctx.close('flux=si', si1 / si0, np.ones(npts), 1e-6, 'to-multi|physical',
                   'a spectrum converted with Spectrum.to(u1, u2, ...) no longer describes the same physical flux', desc, scale=1.0)
     # ---- Planck ---------------------------------------------------------------------------------------
-    nT = 25 if ctx.tier == 'quick' else 200
+    nT = ctx.count(25, 200)
     for i in range(nT):
         T = float(np.exp(rng.uniform(np.log(50), np.log(50000))))
         peak = sm.WIEN_B / T
